@@ -1,0 +1,63 @@
+//go:build verif
+// +build verif
+
+package rsec16
+
+import "sync"
+
+// Verification hooks (build tag verif): a log of the byte ranges each
+// worker writes in applyMatrixSlice.
+
+const verifEnabled = true
+
+// VerifWrite is one logged write: out[OutIndex][Start:End].
+type VerifWrite struct {
+	OutIndex   int
+	Start, End int
+	Len        int
+}
+
+var (
+	verifMu      sync.Mutex
+	verifLogging bool
+	verifLog     []VerifWrite
+	verifZero    byte
+)
+
+// VerifStartLog clears the log and enables logging.
+func VerifStartLog() {
+	verifMu.Lock()
+	verifLogging = true
+	verifLog = nil
+	verifMu.Unlock()
+}
+
+// VerifStopLog disables logging and returns the log.
+func VerifStopLog() []VerifWrite {
+	verifMu.Lock()
+	defer verifMu.Unlock()
+	verifLogging = false
+	l := verifLog
+	verifLog = nil
+	return l
+}
+
+func verifNoteWrite(outIndex int, out []byte, dataStart, dataEnd int) {
+	verifMu.Lock()
+	on := verifLogging
+	if on {
+		verifLog = append(verifLog, VerifWrite{outIndex, dataStart, dataEnd, len(out)})
+	}
+	z := verifZero
+	verifMu.Unlock()
+	if !on {
+		return
+	}
+	// Touch every byte of the range from Go code so that the race
+	// detector, which does not see assembly stores, sees this
+	// worker's writes.
+	b := out[dataStart:dataEnd]
+	for k := range b {
+		b[k] ^= z
+	}
+}
